@@ -207,8 +207,8 @@ theorem chooseLoop_append_ok (cfg : Cfg) (st : Bool) : ∀ (x y : List TEvent) (
           · rw [← h]; exact hy
           · rw [← h]; simp [hm, List.append_assoc]
 
-theorem startAttrs_outer (cfg : Cfg) (st : Bool) (e : TEvent) (h : outerEv e = true) : startAttrs cfg st e = [] := by
-  cases e <;> simp_all [outerEv, startAttrs]
+theorem startAttrs_outer (cfg : Cfg) (st : Bool) (e : TEvent) (h : outerEv e = true) : evMessages cfg st e = [] := by
+  cases e <;> simp_all [outerEv, evMessages]
 
 theorem chooseStep_outer (cfg : Cfg) (st : Bool) (sb pb : MB) (e : TEvent) (he : outerEv e = true)
     (r : List Message × MB × MB) (h : chooseStep cfg st sb pb e = .ok r) :
@@ -217,7 +217,7 @@ theorem chooseStep_outer (cfg : Cfg) (st : Bool) (sb pb : MB) (e : TEvent) (he :
   have hstep : chooseStep cfg st sb pb e = (do
       let sb' ← mbAppend sb e
       let pb' ← mbAppend pb e
-      pure (startAttrs cfg st e, sb', pb')) := by
+      pure (evMessages cfg st e, sb', pb')) := by
     cases e with
     | sub d b => exact absurd rfl (hns d b)
     | _ => rfl
